@@ -11,6 +11,22 @@ MAXBYTES = 60000          # per case; the harness' scan buffer holds 70000
 WORDS = ['a', 'ab', 'hello', 'Dan', 'Chess', 'x1', 'zzzzzzzzzzzz', 'q-9', 'w_w', '0x1f']
 
 
+def have_dev_full():
+    """/dev/full: opens for writing, the flush of fclose fails with ENOSPC (used for the failing-fclose cases)"""
+    try:
+        f = open('/dev/full', 'wb')
+    except OSError:
+        return False
+    try:
+        f.write(b'x'); f.close()
+    except OSError:
+        return True
+    return False
+
+
+HAVE_FULL = have_dev_full()
+
+
 def readable(m): return m[0] == 'r' or '+' in m
 def writable(m): return m[0] in 'wa' or '+' in m
 
@@ -261,11 +277,12 @@ def in_contract(toks, sp):
             if total > MAXBYTES: return False
         if t[0] in 'Oo' and (len(a) != 3 or (a[2] not in MODES_R + MODES_W and a[2][:1] in ('r', 'w', 'a', ''))):
             return False        # mode strings the model does not decode (glibc ignores unknown trailing letters)
+        if t[0] in 'Oo' and a[1] == '4' and not HAVE_FULL: return False
         if t[0] in 'Oo' and len(a) == 3 and out == 'ok':
             try: p = int(a[1])
             except ValueError: return False
             obj[i] = (p, a[2]); full_bytes[i] = 0; last[i] = None
-            if p == 4 and a[2] not in ('w', 'a', 'wb', 'ab'): return False
+            if p == 4 and (a[2] not in ('w', 'a', 'wb', 'ab') or not HAVE_FULL): return False
         elif i in obj and 0 <= i < len(ob) and ob[i].startswith('o'):
             if obj[i][0] == 4:
                 if t[0] in 'rqsf': return False
@@ -407,6 +424,20 @@ CORPUS = [
 ]
 
 
+SMALL_ALPHABET = ['N0', 'O0,0,w+', 'o0,0,r', 'o2,0,a+', 'c0', 'c2', 'd0', 'w0', 'w2', 'x',
+                  'W0,2,1', 'p2,7,ab', 'r0,3', 'q2', 's0,0,0', 's2,-1,2', 't0', 'e2', 'f0', 'o0,3,w']
+
+
+def small_scope(maxlen):
+    """every history up to maxlen over the small alphabet (2 objects: heap File 0, stack File 2; one path)"""
+    import itertools
+    out = []
+    for n in range(1, maxlen + 1):
+        for t in itertools.product(SMALL_ALPHABET, repeat=n):
+            out.append('small|' + ' '.join(t))
+    return out
+
+
 def file_flags():
     """Generated.file_close_tests_closed / file_close_clears_always as the driver needs them."""
     try:
@@ -460,12 +491,18 @@ def run(ctx):
             print('REPLAY: %s\n  impl  %s\n  model %s\n  spec  %s' % (x[4], x[1], x[2], x[3]))
         d.report()
         return
+    if not HAVE_FULL:
+        ctx.notes.append('/dev/full is not available: the failing-fclose cases (D22 witnesses, style full) are not run')
     d.feed(CORPUS, 'corpus')
-    n = 500 if quick else 50000
+    small = small_scope(3 if quick else 4)          # 20 + 400 + 8000 (+ 160000) histories, exhaustive
+    for i in range(0, len(small), 4000):
+        d.feed(small[i:i + 4000])
+    ctx.cov['small_scope'] = {'alphabet': SMALL_ALPHABET, 'max_length': 3 if quick else 4, 'histories': len(small), 'exhaustive': True}
+    n = 2500 if quick else 50000
     maxops = 40 if quick else 70
     cases = []
     for i in range(n):
-        if i % 10 == 9: cases.append(gen_case(ctx.rng, maxops, 'full'))
+        if i % 10 == 9 and HAVE_FULL: cases.append(gen_case(ctx.rng, maxops, 'full'))
         else: cases.append(gen_case(ctx.rng, maxops if i % 4 else 12))
     for i in range(0, n, 1000):
         d.feed(cases[i:i + 1000])
